@@ -1,11 +1,11 @@
 #!/bin/bash
 # Confirms every seeded change in a scratch worktree: patch applies, demo passes before / fails after, suite passes with it.
 WT=/tmp/confirm_wt
-OUT=/verif/seeded/_unconfirmed/confirm.log
+OUT=/verif/seeded/_source/confirm.log
 git -C /repo worktree remove --force $WT 2>/dev/null; git -C /repo worktree prune
 git -C /repo worktree add -q --detach $WT HEAD || exit 2
 : > $OUT
-for d in /verif/seeded/_unconfirmed/C*/; do for v in a b; do
+for d in /verif/seeded/_source/C*/; do for v in a b; do
   dir=$d$v; id=$(basename $d)/$v
   patch=$dir/patch.rebased.diff; [ -f $patch ] || patch=$dir/patch.diff
   demo=$dir/demo.rebased.py; [ -f $demo ] || demo=$dir/demo.py; [ -f $demo ] || demo=$dir/test_demo.py
